@@ -23,9 +23,12 @@ def _model(E, templates):
     env.for_path(E)
     tid, which = E.pick("template", templates)
     m = networks.build(tid)
-    networks.symbolic_bounds(E, m, which=list(which), delta=0.01, sign="spans0")
     m.objective = {m.reactions.get_by_id(r): c for r, c in networks.T[tid]["objectives"][0].items()}
-    E.note(template=tid, symbolic=list(which))
+    solved = E.flag("solved_before_the_bounds_were_set")
+    if solved:
+        m.optimize()        # the solver keeps status 'optimal' and these primal values after the bounds change below
+    networks.symbolic_bounds(E, m, which=list(which), delta=0.01, sign="spans0")
+    E.note(template=tid, symbolic=list(which), solved_before=solved)
     return m, tid
 
 
